@@ -747,17 +747,18 @@ conclusion says what the function itself adds after them (`if cast then c4 else 
 | I1  Include (120)                                        | include file not found: ‹path›              | `include_not_found`, converse `include_found` |
 | A1  TemplateArgDecl default (435)                        | template argument '‹n›' of type … incompatible | `classParam_default`, `multiclassParam_default` |
 | P3  ParentClassList, own class (467)                     | a record cannot inherit from itself         | `parent_self_inherit` |
-| P1  resolve_class_ref_as_class (507)                     | class not found: ‹n›                        | `classRef_class_lookup` |
-| P2  resolve_class_ref_as_multiclass (540; multiclass and defm parents) | multiclass not found: ‹n›     | `classRef_multiclass_lookup` |
-| C1–C5 check_template_args (574, 597, 605, 616, 630)      | too many arguments / only once / doesn't exist / is type of … / value not specified | section (2): `checkTemplateArgs_run`, `too_many_arguments`, `named_rebound`, `positional_type_error`, `named_type_error`, `value_not_specified` |
-| N1  ArgValue, named (663)                                | the name of named argument should be a valid identifier | `namedArg_bad_name`, converse `namedArg_good_name` |
-| F1  FieldDef initialiser (719)                           | field '‹n›' of type … incompatible          | `fieldDef_initialiser` |
-| L1  FieldLet, unknown field (742)                        | field not found: ‹n›                        | `fieldLet_field_not_found`, `fieldLet_field_not_found_reported` |
-| L2  FieldLet value (760)                                 | field '‹n›' of type … incompatible          | `fieldLet_value` |
-| V3  InnerValue field suffix `x.f` (811)                  | cannot access field: ‹n›                    | `innerValue_suffixes` (+ `suffixStep`) |
-| V1  SimpleValue::Identifier (872)                        | symbol not found: ‹n›                       | `identifier_lookup` (= `Tg.C05.identifier_not_found` / `identifier_found`) |
-| V2  SimpleValue::ClassValue (895)                        | class not found: ‹n›                        | `classValue_lookup` |
-| T1  Type::ClassId (967)                                  | class not found: ‹n›                        | `type_class_lookup` |
+| P1  resolve_class_ref_as_class (519)                     | class not found: ‹n›                        | `classRef_class_lookup` |
+| P2  resolve_class_ref_as_multiclass (552; multiclass parents; first parent of a defm; later defm parents that do not name a class only) | multiclass not found: ‹n› | `classRef_multiclass_lookup` |
+| P2′ ParentClassList, defm branch: which lookup a parent gets (`names_class_only`) | class parents of a defm: no `class not found`, template arguments checked against the class | `defm_later_parent`, `namesClassOnly_run` |
+| C1–C5 check_template_args (586, 609, 617, 628, 642)      | too many arguments / only once / doesn't exist / is type of … / value not specified | section (2): `checkTemplateArgs_run`, `too_many_arguments`, `named_rebound`, `positional_type_error`, `named_type_error`, `value_not_specified` |
+| N1  ArgValue, named (675)                                | the name of named argument should be a valid identifier | `namedArg_bad_name`, converse `namedArg_good_name` |
+| F1  FieldDef initialiser (731)                           | field '‹n›' of type … incompatible          | `fieldDef_initialiser` |
+| L1  FieldLet, unknown field (754)                        | field not found: ‹n›                        | `fieldLet_field_not_found`, `fieldLet_field_not_found_reported` |
+| L2  FieldLet value (779; `let f = v;` against the field type, `let f{…} = v;` against `rangeTyp` of the range list) | field '‹n›' of type … incompatible | `fieldLet_value` (`rangeListWidth_examples`, `bitsTyp_one`) |
+| V3  InnerValue field suffix `x.f` (836)                  | cannot access field: ‹n›                    | `innerValue_suffixes` (+ `suffixStep`) |
+| V1  SimpleValue::Identifier (897)                        | symbol not found: ‹n›                       | `identifier_lookup` (= `Tg.C05.identifier_not_found` / `identifier_found`) |
+| V2  SimpleValue::ClassValue (920)                        | class not found: ‹n›                        | `classValue_lookup` |
+| T1  Type::ClassId (992)                                  | class not found: ‹n›                        | `type_class_lookup` |
 | B0  bang operators, arity (`expect_values`, 3 sites, used by every operator) | expected ‹n› arguments, found ‹m› … | section (3): `expectValues_contract` |
 | B1  `expect_type_annotation`                             | expected type annotation                    | `expectTypeAnnotation_contract` |
 | B2  `unexpect_type_annotation`                           | unexpected type annotation                  | `unexpectTypeAnnotation_contract` |
@@ -1188,13 +1189,18 @@ include hv in
 /-- **site L2 `field '…' of type '…' is incompatible with type '…'` (`let f = v` in a record body)**,
 both directions: the field exists (so no `field not found`), the override is declared with the type
 of the overridden field, and after indexing the value exactly one diagnostic is appended at the value
-iff the value's type cannot be cast to the field's type -/
+iff the value's type cannot be cast to the *compared* type `cmpTyp`: the field's type for a plain
+`let f = v;`, and `rangeTyp (some rangeList)` - the bits that the range list selects (`bit` for one
+bit, `bits w` for `w`, `unknown` when a bound cannot be read) - for `let f{…} = v;` -/
 theorem fieldLet_value (n : PTree) (c : IndexCtx) (f : Nat) (rest : List Nat) (hft : c.fileTrace = f :: rest)
     (nameNode : PTree) (hnn : Ast.fieldLetName n = some nameNode)
     (name : String) (loc : FileRange) (hid : identOf f nameNode = some (name, loc))
     (recordId : Nat) (hrec : c.scopes.currentRecordId = some recordId)
     (fieldId : Nat) (hfound : c.symbolMap.recordFindField recordId name = some fieldId)
     (fieldTyp : Ty) (hfty : fieldTyp = (c.symbolMap.recordField fieldId).typ)
+    (cmpTyp : Ty) (hcmp : cmpTyp = match Ast.fieldLetRangeList n with
+      | some rangeList => rangeTyp (some rangeList)
+      | none => fieldTyp)
     (value : PTree) (hvn : Ast.fieldLetValue n = some value)
     (valueTyp : Ty) (c4 : IndexCtx)
     (hval : (r.value value).run
@@ -1202,21 +1208,32 @@ theorem fieldLet_value (n : PTree) (c : IndexCtx) (f : Nat) (rest : List Nat) (h
         ((withField c recordId ⟨name, fieldTyp, recordId, loc⟩).symbolMap.addReference (.recordField fieldId) loc))
       = .ok (some valueTyp, c4)) :
     (indexFieldLet r n).run c = .ok ((),
-      if c4.symbolMap.canBeCastedTo valueTyp fieldTyp then c4
+      if c4.symbolMap.canBeCastedTo valueTyp cmpTyp then c4
       else c4.report f (nodeRange value)
-        s!"field '{name}' of type '{fieldTyp}' is incompatible with type '{valueTyp}'") := by
+        s!"field '{name}' of type '{cmpTyp}' is incompatible with type '{valueTyp}'") := by
   subst hfty
+  subst hcmp
   have hft4 : c4.fileTrace = f :: rest := by rw [((hv _).run _ _ _ hval).trace]; exact hft
   unfold indexFieldLet
   unfold withField at hval
   simp only [hnn, StateT.run_bind, utilsIdentifier_runOf nameNode c f rest hft, hid, Except.ok_bind,
     currentRecordId_run, hrec, withSM_run, hfound, addRecordField_run, recordMut_run, addReference_run, hvn, hval,
     canBeCastedTo_run]
-  by_cases hc : c4.symbolMap.canBeCastedTo valueTyp (c.symbolMap.recordField fieldId).typ = true
-  · simp only [hc, Bool.not_true, Bool.false_eq_true, if_false, if_true]
-    rfl
-  · simp only [hc, Bool.not_false, if_true, error_run _ _ c4 f rest hft4]
-    rfl
+  cases Ast.fieldLetRangeList n with
+  | none =>
+    simp only
+    by_cases hc : c4.symbolMap.canBeCastedTo valueTyp (c.symbolMap.recordField fieldId).typ = true
+    · simp only [hc, Bool.not_true, Bool.false_eq_true, if_false, if_true]
+      rfl
+    · simp only [hc, Bool.not_false, if_true, error_run _ _ c4 f rest hft4]
+      rfl
+  | some rangeList =>
+    simp only
+    by_cases hc : c4.symbolMap.canBeCastedTo valueTyp (rangeTyp (some rangeList)) = true
+    · simp only [hc, Bool.not_true, Bool.false_eq_true, if_false, if_true]
+      rfl
+    · simp only [hc, Bool.not_false, if_true, error_run _ _ c4 f rest hft4]
+      rfl
 
 end sub
 
@@ -1440,12 +1457,145 @@ theorem parent_self_inherit (n : PTree) (c c' : IndexCtx) (f : Nat) (rest : List
 
 end sub
 
+/-- `names_class_only` reads the symbol map only: the reference names a class and no multiclass -/
+theorem namesClassOnly_run (classRef : PTree) (c : IndexCtx) (f : Nat) (rest : List Nat)
+    (hft : c.fileTrace = f :: rest) :
+    (namesClassOnly classRef).run c = .ok
+      (match Ast.classRefName classRef with
+        | none => false
+        | some nameNode =>
+          match identOf f nameNode with
+          | none => false
+          | some (name, _) => (c.symbolMap.findMulticlass name).isNone && (c.symbolMap.findClass name).isSome, c) := by
+  unfold namesClassOnly
+  cases Ast.classRefName classRef with
+  | none => rfl
+  | some nameNode =>
+    simp only [StateT.run_bind, utilsIdentifier_runOf nameNode c f rest hft, Except.ok_bind]
+    cases identOf f nameNode with
+    | none => rfl
+    | some nl => obtain ⟨name, loc⟩ := nl; rfl
+
+theorem Except.bind_ok_inv {ε α β : Type} {x : Except ε α} {g : α → Except ε β} {b : β}
+    (h : (x >>= g) = .ok b) : ∃ a, x = .ok a ∧ g a = .ok b := by
+  cases x with
+  | error e => cases h
+  | ok a => exact ⟨a, rfl, h⟩
+
+section sub
+variable {r : Rec} (hv : ∀ n, Keeps AttrRel (r.value n)) (ht : ∀ n, Keeps AttrRel (r.typ n))
+include hv ht
+
+/-- **site P2′ the parents of a `defm` after the first**: the first parent is resolved as a
+multiclass (`defmMulticlassParent`, i.e. `classRef_multiclass_lookup`: `multiclass not found` if it is
+none).  A later parent `classRef` (`c1`/`c2`: the states before / after its iteration) is resolved
+* as a **class** iff its name denotes a class and no multiclass (`names_class_only`): then the
+  iteration is exactly `resolveClassRefAsClass`, `class not found` cannot occur, the reference is
+  registered and the template arguments are checked against the class's parameters
+  (`checkPure … (classParams …)`, section (2));
+* as a multiclass otherwise (`defmMulticlassParent`), with `multiclass not found` if there is none. -/
+theorem defm_later_parent (n : PTree) (c c' : IndexCtx) (f : Nat) (rest : List Nat) (hft : c.fileTrace = f :: rest)
+    (hnorec : c.scopes.currentRecordId = none) (hnomc : c.scopes.currentMulticlassId = none)
+    (defmId : Nat) (hdefm : c.scopes.currentDefmId = some defmId)
+    (first : PTree) (pre : List PTree) (classRef : PTree) (post : List PTree)
+    (hsplit : Ast.parentClassListClasses n = first :: (pre ++ classRef :: post))
+    (hrun : (indexParentClassList r n).run c = .ok ((), c')) :
+    ∃ c0 c1 c2, (defmMulticlassParent r defmId first).run c = .ok ((), c0) ∧ AttrRel c0 c1 ∧ (pre = [] → c1 = c0) ∧
+      AttrRel c2 c' ∧
+      ((∃ nameNode name loc classId, Ast.classRefName classRef = some nameNode ∧ identOf f nameNode = some (name, loc) ∧
+          c1.symbolMap.findMulticlass name = none ∧ c1.symbolMap.findClass name = some classId ∧
+          ∃ avs c3 rs,
+            (resolveClassRefAsClass r classRef).run c1 = .ok (some classId, c2) ∧
+            (argValuesOf r (Ast.classRefArgValueList classRef)).run
+              (c1.setSM (c1.symbolMap.addReference (.record classId) loc)) = .ok (avs, c3) ∧
+            checkPure c3.symbolMap (classParams (c1.symbolMap.addReference (.record classId) loc) classId) avs
+              (nodeRange classRef) = some rs ∧
+            c2 = reportAll c3 f rs) ∨
+       ((namesClassOnly classRef).run c1 = .ok (false, c1) ∧
+          (defmMulticlassParent r defmId classRef).run c1 = .ok ((), c2))) := by
+  unfold indexParentClassList at hrun
+  simp only [StateT.run_bind, currentRecordId_run, hnorec, Except.ok_bind, currentMulticlassId_run, hnomc,
+    currentDefmId_run, hdefm, hsplit] at hrun
+  obtain ⟨⟨u0, c0⟩, h0, hrun⟩ := Except.bind_ok_inv hrun
+  have r0 : AttrRel c c0 := (Index.defmMulticlassParent_keeps hv ht defmId first).run _ _ _ h0
+  obtain ⟨⟨u, c''⟩, hloop, hpure⟩ := Except.bind_ok_inv hrun
+  simp only [StateT.run_pure] at hpure
+  cases hpure
+  have hsplitrun := forIn_unit_split _ pre classRef post c0 c' _ ?_ hloop
+  · obtain ⟨c1, c2, i1, i2, i3⟩ := hsplitrun
+    have r1 : AttrRel c0 c1 := (?_ : Keeps AttrRel _).run _ _ _ i1
+    have r3 : AttrRel c2 c' := (?_ : Keeps AttrRel _).run _ _ _ i3
+    · have hft1 : c1.fileTrace = f :: rest := by rw [r1.trace, r0.trace]; exact hft
+      have hpre : pre = [] → c1 = c0 := by
+        intro hp
+        subst hp
+        simp only [List.forIn_nil, StateT.run_pure] at i1
+        cases i1
+        rfl
+      refine ⟨c0, c1, c2, h0, r1, hpre, r3, ?_⟩
+      obtain ⟨b, c1', j1, j2⟩ := IxM.run_bind_ok i2
+      have hnames := namesClassOnly_run classRef c1 f rest hft1
+      have hb : (match Ast.classRefName classRef with
+          | none => false
+          | some nameNode =>
+            match identOf f nameNode with
+            | none => false
+            | some (name, _) => (c1.symbolMap.findMulticlass name).isNone && (c1.symbolMap.findClass name).isSome) = b
+          ∧ c1 = c1' := by
+        rw [hnames] at j1
+        cases j1
+        exact ⟨rfl, rfl⟩
+      obtain ⟨hb, rfl⟩ := hb
+      rw [hb] at hnames
+      cases b with
+      | false =>
+        simp only [Bool.false_eq_true, if_false] at j2
+        obtain ⟨_, c2', k1, k2⟩ := IxM.run_bind_ok j2
+        simp only [StateT.run_pure] at k2
+        cases k2
+        exact Or.inr ⟨hnames, k1⟩
+      | true =>
+        simp only [if_true] at j2
+        obtain ⟨res, c2', k1, k2⟩ := IxM.run_bind_ok j2
+        simp only [StateT.run_pure] at k2
+        cases k2
+        left
+        cases hnn : Ast.classRefName classRef with
+        | none => rw [hnn] at hb; cases hb
+        | some nameNode =>
+          rw [hnn] at hb
+          simp only at hb
+          cases hid : identOf f nameNode with
+          | none => rw [hid] at hb; cases hb
+          | some nl =>
+            obtain ⟨name, loc⟩ := nl
+            rw [hid] at hb
+            simp only [Bool.and_eq_true, Option.isNone_iff_eq_none] at hb
+            obtain ⟨hmc, hcls⟩ := hb
+            obtain ⟨classId, hcls⟩ := Option.isSome_iff_exists.1 hcls
+            have := classRef_class_lookup hv ht classRef c1 f rest hft1 nameNode hnn name loc hid
+            rw [hcls] at this
+            obtain ⟨hres, avs, c3, rs, a1, a2, a3⟩ := this res c2 k1
+            subst hres
+            exact ⟨nameNode, name, loc, classId, rfl, hid, hmc, hcls, avs, c3, rs, k1, a1, a2, a3⟩
+    · keeps
+    · keeps
+  · intro x cx st cy h
+    obtain ⟨b, cz, j1, j2⟩ := IxM.run_bind_ok h
+    split at j2
+    · obtain ⟨_, _, _, j3⟩ := IxM.run_bind_ok j2
+      simp only [StateT.run_pure] at j3; cases j3; rfl
+    · obtain ⟨_, _, _, j3⟩ := IxM.run_bind_ok j2
+      simp only [StateT.run_pure] at j3; cases j3; rfl
+
+end sub
+
 /-- one suffix: `some (ty', c')` = continue with the type `ty'` in state `c'`; `none, c'` = stop -/
 def suffixStep (f : Nat) (ty : Ty) (s : PTree) (c : IndexCtx) : Option Ty × IndexCtx :=
   match s.kind with
   | .RangeSuffix =>
     match ty with
-    | .bits _ => (some .bit, c)
+    | .bits _ => (some (rangeTyp (Ast.rangeSuffixRangeList s)), c)
     | _ => (none, c)
   | .SliceSuffix =>
     if Ast.sliceSuffixIsSingleElement s then
@@ -1486,7 +1636,7 @@ def suffixBody (suffix : PTree) (s : Option (Option Ty) × Ty) : IxM (ForInStep 
   match suffix.kind with
   | .RangeSuffix =>
     match s.2 with
-    | .bits _ => pure (.yield (none, .bit))
+    | .bits _ => pure (.yield (none, rangeTyp (Ast.rangeSuffixRangeList suffix)))
     | _ => pure (.done (some none, s.2))
   | .SliceSuffix =>
     if Ast.sliceSuffixIsSingleElement suffix = true then
@@ -1570,7 +1720,9 @@ theorem suffixLoop_run (f : Nat) (rest : List Nat) (l : List PTree) (ty : Ty) (c
 chain: after the simple value has been indexed (sub-call, result `lhs`), `indexInnerValue` is exactly
 `suffixWalk`: each field suffix whose field exists registers a reference and continues with the
 field's type and reports nothing; the first one whose field does not exist in the current type is
-reported at the suffix, and the walk stops -/
+reported at the suffix, and the walk stops.  (A range suffix `b{…}` on a `bits` value continues with
+`rangeTyp` of its range list: `bit` for one selected bit, `bits w` for `w`, `unknown` if a bound
+cannot be read; on any other type the walk stops without a diagnostic.) -/
 theorem innerValue_suffixes (r : Rec) (n : PTree) (sv : PTree) (hsv : Ast.innerValueSimpleValue n = some sv)
     (c c1 : IndexCtx) (lhs : Ty) (hrun : (indexSimpleValue r sv).run c = .ok (some lhs, c1))
     (f : Nat) (rest : List Nat) (hft : c1.fileTrace = f :: rest) :
@@ -2027,13 +2179,13 @@ def cL : IndexCtx :=
 /-- L2: a string for the `int` field -/
 example : (indexFieldLet exR fieldLetBad).run cF = .ok ((), cL.report 0 (8, 11)
     s!"field '{"x"}' of type '{Ty.int}' is incompatible with type '{Ty.string}'") := by
-  rw [fieldLet_value exR_value fieldLetBad cF 0 [] rfl identX rfl "x" ⟨0, 4, 5⟩ rfl 0 rfl 0 field_x .int rfl
+  rw [fieldLet_value exR_value fieldLetBad cF 0 [] rfl identX rfl "x" ⟨0, 4, 5⟩ rfl 0 rfl 0 field_x .int rfl .int rfl
     strValue rfl .string cL rfl]
   rfl
 
 /-- L2, converse -/
 example : (indexFieldLet exR fieldLetX).run cF = .ok ((), cL) := by
-  rw [fieldLet_value exR_value fieldLetX cF 0 [] rfl identX rfl "x" ⟨0, 4, 5⟩ rfl 0 rfl 0 field_x .int rfl
+  rw [fieldLet_value exR_value fieldLetX cF 0 [] rfl identX rfl "x" ⟨0, 4, 5⟩ rfl 0 rfl 0 field_x .int rfl .int rfl
     intValue rfl .int cL rfl]
   rfl
 
@@ -2383,5 +2535,166 @@ example : ∃ res, index coreWs = .ok res ∧ res.diagnostics = #[] ∧ res.symb
     exact core_no_diagnostics_partial coreWs res h coreProgram
       (match Ast.sourceFileStatementList coreProgram with | some sl => sl | none => coreProgram)
       rfl rfl (by decide +kernel)
+
+
+/-! ### bit ranges: `utils::range_list_width`, `utils::bits_typ` -/
+
+def intNode (s e : Nat) (text : String) : PTree := .node .Integer s e 1 #[.token .IntVal s e text]
+
+/-- `{3-0}` (the lexer reads `-0` as one negative literal) -/
+def range_3_0 : PTree :=
+  .node .RangeList 0 5 3 #[.token .LBrace 0 1 "{",
+    .node .RangePiece 1 4 2 #[intNode 1 2 "3", intNode 2 4 "-0"], .token .RBrace 4 5 "}"]
+
+/-- `{7, 3...0}` -/
+def range_7_3_0 : PTree :=
+  .node .RangeList 0 11 3 #[.token .LBrace 0 1 "{",
+    .node .RangePiece 1 2 2 #[intNode 1 2 "7"], .token .Comma 2 3 ",", .token .Whitespace 3 4 " ",
+    .node .RangePiece 4 10 2 #[intNode 4 5 "3", .token .DotDotDot 5 8 "...", intNode 8 9 "0"],
+    .token .RBrace 10 11 "}"]
+
+/-- `{15-4}` -/
+def range_15_4 : PTree :=
+  .node .RangeList 0 6 3 #[.token .LBrace 0 1 "{",
+    .node .RangePiece 1 5 2 #[intNode 1 3 "15", intNode 3 5 "-4"], .token .RBrace 5 6 "}"]
+
+/-- the number of bits a range list selects -/
+theorem rangeListWidth_examples :
+    rangeListWidth range_3_0 = some 4 ∧ rangeListWidth range_7_3_0 = some 5 ∧ rangeListWidth range_15_4 = some 12 := by
+  decide +kernel
+
+/-- one selected bit is a `bit`, several are `bits<w>` -/
+theorem bitsTyp_one : bitsTyp 1 = .bit := rfl
+theorem bitsTyp_many (w : Nat) (h : w ≠ 1) : bitsTyp w = .bits w := by
+  unfold bitsTyp
+  simp [h]
+
+example : rangeTyp (some range_3_0) = .bits 4 := by
+  unfold rangeTyp
+  rw [show (some range_3_0).bind rangeListWidth = some 4 from rangeListWidth_examples.1]
+  rfl
+example : rangeTyp none = .unknown := rfl
+
+
+/-- `{0}` -/
+def range_0 : PTree :=
+  .node .RangeList 5 8 3 #[.token .LBrace 5 6 "{",
+    .node .RangePiece 6 7 2 #[.node .Integer 6 7 1 #[.token .IntVal 6 7 "0"]], .token .RBrace 7 8 "}"]
+
+/-- `let x{0} = "s";` -/
+def fieldLetBit : PTree :=
+  .node .FieldLet 0 15 4 #[.token .LetKw 0 3 "let", .token .Whitespace 3 4 " ", identX, range_0, .token .Equal 9 10 "=",
+    strValue, .token .Semi 14 15 ";"]
+
+theorem rangeTyp_0 : rangeTyp (some range_0) = .bit := by
+  unfold rangeTyp
+  rw [show (some range_0).bind rangeListWidth = some 1 by decide +kernel]
+  rfl
+
+/-- L2 with a bit range: the value is compared with the selected bits (`bit`), not with the field's
+type (`int`) - while the new field keeps the whole field type (`cL`) -/
+example : (indexFieldLet exR fieldLetBit).run cF = .ok ((), cL.report 0 (8, 11)
+    s!"field '{"x"}' of type '{Ty.bit}' is incompatible with type '{Ty.string}'") := by
+  rw [fieldLet_value exR_value fieldLetBit cF 0 [] rfl identX rfl "x" ⟨0, 4, 5⟩ rfl 0 rfl 0 field_x .int rfl
+    .bit (by rw [show Ast.fieldLetRangeList fieldLetBit = some range_0 from rfl]; exact rangeTyp_0.symm)
+    strValue rfl .string cL rfl]
+  rfl
+
+/-- `{1, 0}{0}`: a two-bit value of which bit 0 is selected -/
+def innerBits : PTree :=
+  .node .InnerValue 0 9 5 #[
+    .node .Bits 0 6 4 #[.token .LBrace 0 1 "{",
+      .node .ValueList 1 5 3 #[intValue, .token .Comma 2 3 ",", intValue], .token .RBrace 5 6 "}"],
+    .node .RangeSuffix 6 9 4 #[range_0]]
+
+/-- V3, range suffix: `bits<2>` continues as `rangeTyp {0}` = `bit` -/
+example : (indexInnerValue exR innerBits).run c0 = .ok (some .bit, c0) := by
+  rw [innerValue_suffixes exR innerBits
+    (.node .Bits 0 6 4 #[.token .LBrace 0 1 "{",
+      .node .ValueList 1 5 3 #[intValue, .token .Comma 2 3 ",", intValue], .token .RBrace 5 6 "}"]) rfl c0 c0 (.bits 2) rfl 0 [] rfl]
+  show Except.ok (suffixWalk 0 (.bits 2) [.node .RangeSuffix 6 9 4 #[range_0]] c0) = _
+  unfold suffixWalk suffixStep
+  simp only [show (PTree.node SyntaxKind.RangeSuffix 6 9 4 #[range_0]).kind = .RangeSuffix from rfl,
+    show Ast.rangeSuffixRangeList (.node .RangeSuffix 6 9 4 #[range_0]) = some range_0 from rfl, rangeTyp_0]
+  rfl
+
+/-- inside `defm … : A, A` where `A` is a class (record 0) and there is no multiclass -/
+def cDefm : IndexCtx :=
+  { c0 with symbolMap := ((SymMap.addRecord {} { name := "A", kind := .cls, defineLoc := ⟨0, 0, 0⟩ } false).2.addDefm
+              { name := "d", defineLoc := ⟨0, 0, 0⟩ } false).2,
+            scopes := ({} : Scopes).push (.defm 0) }
+
+def identA2 : PTree := .node .Identifier 3 4 1 #[.token .Id 3 4 "A"]
+def classRefA2 : PTree := .node .ClassRef 3 4 2 #[identA2]
+/-- `: A, A` -/
+def parentsAA : PTree :=
+  .node .ParentClassList 0 6 3 #[.token .Colon 0 1 ":", classRefA, .token .Comma 1 2 ",", classRefA2]
+/-- after the first parent has been reported -/
+def cD1 : IndexCtx := cDefm.report 0 (0, 1) ("multiclass not found: " ++ "A")
+
+theorem cDefm_noMulticlass (sm : SymMap) (h : sm.nameToMulticlass = cDefm.symbolMap.nameToMulticlass) :
+    sm.findMulticlass "A" = none := by
+  unfold SymMap.findMulticlass
+  rw [h]
+  simp [cDefm, c0, IndexCtx.new, SymMap.addRecord, SymMap.addDefm, SymMap.logDefine]
+
+/-- P2′: the first `A` is looked up as a multiclass (not found, reported); the second `A` names a class
+only, so it is resolved as a class - the hypotheses of `defm_later_parent` are satisfiable and its
+first alternative is the one that holds -/
+example : ∃ c', (indexParentClassList exR parentsAA).run cDefm = .ok ((), c') ∧
+    ({ location := ⟨0, 0, 1⟩, message := "multiclass not found: " ++ "A" } : Diagnostic) ∈ c'.diagnostics.toList ∧
+    c'.diagnostics.size = 1 := by
+  have hfirst : (defmMulticlassParent exR 0 classRefA).run cDefm =
+      .ok ((), cD1) := by
+    unfold defmMulticlassParent
+    have := classRef_multiclass_lookup exR_value exR_typ classRefA cDefm 0 [] rfl identA rfl "A" ⟨0, 0, 1⟩ rfl
+    rw [cDefm_noMulticlass _ rfl] at this
+    simp only [StateT.run_bind, this, Except.ok_bind]
+    rfl
+  have hcls : cD1.symbolMap.findClass "A" = some 0 := by
+    simp [cD1, IndexCtx.report, cDefm, c0, IndexCtx.new, SymMap.findClass, SymMap.addRecord, SymMap.addDefm, SymMap.logDefine]
+  have hsecond : ∃ c2, (resolveClassRefAsClass exR classRefA2).run
+      cD1 = .ok (some 0, c2) ∧
+      c2.diagnostics = cD1.diagnostics := by
+    unfold resolveClassRefAsClass
+    have e0 : Ast.classRefName classRefA2 =
+        some identA2 := rfl
+    have e1 : identOf 0 identA2 = some ("A", ⟨0, 3, 4⟩) := rfl
+    simp only [e0, StateT.run_bind, utilsIdentifier_runOf identA2 cD1 0 [] rfl, e1, Except.ok_bind, withSM_run, hcls,
+      addReference_run]
+    exact ⟨_, rfl, rfl⟩
+  obtain ⟨c2, hsecond, hd2⟩ := hsecond
+  have hrun : (indexParentClassList exR parentsAA).run cDefm = .ok ((), c2) := by
+    unfold indexParentClassList
+    have e0 : Ast.parentClassListClasses parentsAA =
+        [classRefA, classRefA2] := rfl
+    have e1 : cDefm.scopes.currentRecordId = none := rfl
+    have e2 : cDefm.scopes.currentMulticlassId = none := rfl
+    have e3 : cDefm.scopes.currentDefmId = some 0 := rfl
+    have hn := namesClassOnly_run classRefA2
+      cD1 0 [] rfl
+    have e4 : Ast.classRefName classRefA2 =
+        some identA2 := rfl
+    have e5 : identOf 0 identA2 = some ("A", ⟨0, 3, 4⟩) := rfl
+    rw [e4] at hn
+    have hmc : cD1.symbolMap.findMulticlass "A" = none := cDefm_noMulticlass _ rfl
+    simp only [e5, hcls, hmc, Option.isNone_none, Option.isSome_some, Bool.and_self] at hn
+    simp only [StateT.run_bind, currentRecordId_run, e1, Except.ok_bind, currentMulticlassId_run, e2,
+      currentDefmId_run, e3, e0, hfirst, List.forIn_cons, List.forIn_nil, hn, if_true, hsecond]
+    rfl
+  refine ⟨c2, hrun, ?_, ?_⟩
+  · have : c2.diagnostics.toList = cD1.diagnostics.toList := by
+      rw [hd2]
+    rw [this]
+    exact report_mem cDefm 0 (0, 1) _
+  · rw [hd2]; rfl
+
+/-- … and `defm_later_parent` applies to that run (second parent, `pre = []`) -/
+example (c' : IndexCtx) (hrun : (indexParentClassList exR parentsAA).run cDefm = .ok ((), c')) :
+    ∃ c0' c1 c2, (defmMulticlassParent exR 0 classRefA).run cDefm = .ok ((), c0') ∧ AttrRel c0' c1 ∧ AttrRel c2 c' :=
+  let ⟨c0', c1, c2, h0, h1, _, h3, _⟩ := defm_later_parent exR_value exR_typ parentsAA cDefm c' 0 [] rfl rfl rfl 0 rfl
+    classRefA [] classRefA2 [] rfl hrun
+  ⟨c0', c1, c2, h0, h1, h3⟩
+
 
 end Tg.C13
